@@ -122,6 +122,29 @@ def oracle_c16(program, po, so):
             if not names or grouped:
                 continue
             n0 = names[0]
+            # transfer_col_references: a materialised copy of the data - also one whose visible names were produced by a
+            # rename (rotated names renamed back) - takes over the origin's references: same frame, and every reference
+            # of the origin denotes the same column's data
+            try:
+                df0 = T >> pdt.export(pdt.Polars())
+                mats = [("transfer", pdt.Table(df0, name="mat"))]
+                if len(names) >= 2:
+                    rot = names[1:] + names[:1]
+                    df1 = df0.rename(dict(zip(names, ["__tmp_" + x for x in names]))).rename(dict(zip(["__tmp_" + x for x in names], rot)))
+                    back = pdt.Table(df1, name="mat_r") >> pdt.rename(dict(zip(rot, ["__r_" + x for x in names]))) \
+                        >> pdt.rename(dict(zip(["__r_" + x for x in names], names))) >> pdt.select(*names)
+                    mats.append(("transfer_renamed", back))
+                for tag, M in mats:
+                    X = pdt.transfer_col_references(M, T)
+                    same(tag, X)
+                    for n in names[:4]:
+                        f = _frame(X >> pdt.mutate(__p=T[n]))
+                        i0, ip = f["names"].index(n), f["names"].index("__p")
+                        if not all(oracle.cell_eq(r_[i0], r_[ip]) for r_ in f["rows"]):
+                            diffs.append(dict(kind="transferred_reference_denotes_other_data", verb=tag, stmt=st["id"], op="export", backend=be, column=n))
+            except Exception as e:  # noqa: BLE001
+                if P.exc_class(e) not in ("SubqueryError",):
+                    diffs.append(dict(kind="reroot_error", verb="transfer_col_references", stmt=st["id"], op="export", backend=be, exc=P.exc_class(e), msg=str(e)[:120]))
             # origin's references on the plain alias are rejected, its own work
             try:
                 A >> pdt.mutate(__p=T[n0])
